@@ -304,6 +304,16 @@ func genC09(g *Gen) {
 		g.un("Float64", x)
 		g.un("Float32", x)
 	})
+	g.encodingGrid(0.1, func(x d128.Decimal) {
+		_, _, c, e := unmk(x)
+		if e < -400 || e > 400 { // the oracle handles the far ends, but slowly: every eighth of them
+			if g.r.Intn(8) != 0 {
+				x = mk(g.r.Intn(2) == 0, c, g.r.Intn(17)-8)
+			}
+		}
+		g.un("Float64", x)
+		g.un("Float32", x)
+	})
 	g.floatEdgeGrid(0.3, func(x d128.Decimal) {
 		g.un("Float64", x)
 		g.un("Float32", x)
